@@ -21,7 +21,8 @@ import (
 type misKnobs struct {
 	EntityIDSet  bool   `json:"entity_id_set"`
 	CustomAud    bool   `json:"custom_audience_validator"`
-	ReceivedAt   string `json:"received_at"` // "acs" | "acs-query" | "relative" (path-only request URL, as behind a real net/http server)
+	FaultyAud    bool   `json:"custom_audience_validator_panics_on_unknown_audience,omitempty"` // the application's validator faults (nil dereference) on audiences it does not know: whatever the library makes of that, the assertion was not approved
+	ReceivedAt   string `json:"received_at"`                                                    // "acs" | "acs-query" | "relative" (path-only request URL, as behind a real net/http server)
 	AllowIDP     bool   `json:"allow_idp_initiated"`
 	Rebase       bool   `json:"metadata_url_changes_after_first_use"` // entity ID unset: after the first delivery the application changes MetadataURL (a per-tenant clone of a template SP); the audience follows
 	MaxIssueMs   int64  `json:"MaxIssueDelay_ms"`
@@ -86,8 +87,9 @@ func variant(g *Rng, correct string, ws [4]int) (string, string) {
 }
 
 func genMisroute(g *Rng, tier string) *Plan {
-	k := misKnobs{EntityIDSet: g.Bool(0.5), CustomAud: g.Bool(0.15), ReceivedAt: Pick(g, "acs", "acs", "acs-query", "relative"), AllowIDP: g.Bool(0.2), Rebase: g.Bool(0.15),
+	k := misKnobs{EntityIDSet: g.Bool(0.5), CustomAud: g.Bool(0.2), ReceivedAt: Pick(g, "acs", "acs", "acs-query", "relative"), AllowIDP: g.Bool(0.2), Rebase: g.Bool(0.15),
 		MaxIssueMs: Pick(g, int64(7000), 90_000), MaxClockSkew: Pick(g, int64(1000), 180_000)}
+	k.FaultyAud = k.CustomAud && g.Bool(0.4)
 	p := &Plan{Knobs: mustJSON(k)}
 	myAud := misMetadata
 	if k.EntityIDSet {
@@ -149,7 +151,7 @@ func genMisroute(g *Rng, tier string) *Plan {
 			spec.Destination = Pick(g, nearMiss(g, misACS), nearMiss(g, misACS), "https://other-sp.example.net/saml/acs", "http://sp.example.com:8080/saml/acs")
 			st.Labels["destination"] = "near"
 		case 2:
-			spec.Destination = "https://sp2.example.com/saml/acs"
+			spec.Destination = Pick(g, "https://sp2.example.com/saml/acs", misSPBase+"/saml/slo", misSPBase+"/saml/slo", misMetadata) // another SP's endpoint, or another endpoint of this SP
 			st.Labels["destination"] = "wrong"
 		default:
 			st.Labels["destination"] = "absent"
@@ -194,6 +196,14 @@ func genMisroute(g *Rng, tier string) *Plan {
 		}
 		for q := 0; q < naCount; q++ {
 			v, l := variant(g, myAud, w(10, 3, 3, 1))
+			if l == "wrong" && !clean && g.Bool(0.4) {
+				// a name of this very SP that is not its audience in this configuration: the metadata URL beside a configured entity ID,
+				// its ACS URL, its entity ID where a custom validator decides
+				v = Pick(g, misMetadata, misMetadata, misACS, misEntity)
+				if v == myAud {
+					v = misACS
+				}
+			}
 			a.Audiences = append(a.Audiences, v)
 			st.Labels[fmt.Sprintf("audience%d", q)] = l
 		}
@@ -254,6 +264,10 @@ func execMisroute(t *testing.T, p *Plan) *Result {
 						return nil
 					}
 				}
+			}
+			if k.FaultyAud {
+				var tenant *struct{ enabled bool }
+				_ = tenant.enabled // the application's bug: unknown audience, nil tenant
 			}
 			return fmt.Errorf("custom validator: audience not accepted")
 		}
